@@ -278,22 +278,80 @@ func c32(c *engine.Ctx) {
 
 	// ---- R3 request origins + R4 retry discipline
 	n3, n4 := 0, 0
-	checkSave := func(fn *ssa.Function, method string, want map[string]func(ssa.Value) bool, label string) *ssa.Call {
-		var save *ssa.Call
-		for _, call := range engine.Calls(fn) {
-			if call.Common().IsInvoke() && call.Common().Method.Name() == method {
-				save, _ = call.(*ssa.Call)
+	// savedEdge[anchor] = matcher of the edge on which the part was accepted,
+	// in the function that contains anchor
+	savedEdge := map[*ssa.Call]func(engine.Cmp) bool{}
+	checkSave := func(outer *ssa.Function, method string, want map[string]func(ssa.Value) bool, label string) *ssa.Call {
+		findSave := func(f *ssa.Function) *ssa.Call {
+			var s *ssa.Call
+			for _, call := range engine.Calls(f) {
+				if call.Common().IsInvoke() && call.Common().Method.Name() == method {
+					s, _ = call.(*ssa.Call)
+				}
+			}
+			return s
+		}
+		fn := outer
+		save := findSave(fn)
+		var site *ssa.Call // the call of a helper that contains the save (an extracted retry loop)
+		if save == nil {
+			for _, call := range engine.Calls(outer) {
+				h := call.Common().StaticCallee()
+				if h == nil || h.Pkg != outer.Pkg || len(h.Blocks) == 0 {
+					continue
+				}
+				if s := findSave(h); s != nil {
+					if cl, isC := call.(*ssa.Call); isC {
+						fn, save, site = h, s, cl
+					}
+				}
 			}
 		}
 		if save == nil {
-			c.Fail("C32.R3", label+"/save-call", fn.Pos(), "no %s call", method)
+			c.Fail("C32.R3", label+"/save-call", outer.Pos(), "no %s call", method)
 			return nil
+		}
+		// a value that is a parameter of the helper stands for the argument at its call site
+		toOuter := func(v ssa.Value) ssa.Value {
+			if site == nil || v == nil {
+				return v
+			}
+			for i, p := range fn.Params {
+				if engine.Unwrap(v) == ssa.Value(p) {
+					return engine.Args(site.Common())[i]
+				}
+			}
+			return v
 		}
 		req := save.Common().Args[1]
 		for f, ok := range want {
 			n3++
 			v := engine.StructFieldValue(req, f)
-			c.Check(v != nil && ok(v), "C32.R3", label+"/"+f, save.Pos(), "request field %s has the wrong origin (is %s)", f, descCell(v))
+			c.Check(v != nil && ok(toOuter(v)), "C32.R3", label+"/"+f, save.Pos(), "request field %s has the wrong origin (is %s)", f, descCell(toOuter(v)))
+		}
+		anchor := save
+		if site == nil {
+			savedEdge[anchor] = func(k engine.Cmp) bool {
+				b, isB := engine.ConstBool(k.Y)
+				return isResult(k.X, save, 0) && isB && b && k.Op == token.EQL
+			}
+		} else {
+			anchor = site
+			// the helper reports success only for an accepted part
+			okH := true
+			for _, r := range engine.SuccessReturns(fn) {
+				if !engine.GuardedBy(r, func(k engine.Cmp) bool {
+					b, isB := engine.ConstBool(k.Y)
+					return isResult(k.X, save, 0) && isB && b && k.Op == token.EQL
+				}) {
+					okH = false
+				}
+			}
+			n3++
+			c.Check(okH && engine.ErrIndex(fn) >= 0, "C32.R3", label+"/helper-succeeds-only-for-a-saved-part", fn.Pos(), "%s must return a nil error only on the edge where the server answered true", fn.Name())
+			savedEdge[anchor] = func(k engine.Cmp) bool {
+				return engine.CallOf(k.X) == site && engine.IsNil(k.Y) && k.Op == token.EQL
+			}
 		}
 		// R4
 		var fw *ssa.Call
@@ -317,7 +375,7 @@ func c32(c *engine.Ctx) {
 			}}).Reaches(save)
 		}
 		c.Check(okR, "C32.R4", label+"/resend-only-on-flood-or-false", save.Pos(), "the save request may be repeated only after a flood wait or a false answer")
-		return save
+		return anchor
 	}
 	desc := func(want string) func(ssa.Value) bool {
 		return func(v ssa.Value) bool { return descCell(v) == want }
@@ -354,10 +412,7 @@ func c32(c *engine.Ctx) {
 			inc := incs[0]
 			// reachable only via the "saved" (true answer) edge, and every path from there to the next read passes it
 			okI = engine.PathExists(sSave, inc) && !(engine.PathQuery{Fn: small, From: inc, Barrier: func(i ssa.Instruction) bool { return i == ssa.Instruction(srf) }}).Reaches(inc)
-			saved := engine.EdgesWhere(small, func(k engine.Cmp) bool {
-				b, isB := engine.ConstBool(k.Y)
-				return isResult(k.X, sSave, 0) && isB && b && k.Op == token.EQL
-			})
+			saved := engine.EdgesWhere(small, savedEdge[sSave])
 			okI = okI && len(saved) == 1 && everyPathPasses(small, inc, saved, nil)
 			for e := range saved {
 				if (engine.PathQuery{Fn: small, FromBlk: e[1], Barrier: func(i ssa.Instruction) bool { return i == inc.(ssa.Instruction) }}).Reaches(srf) {
@@ -518,36 +573,70 @@ func c32(c *engine.Ctx) {
 	}
 	if cs := c.MustFunc("C32.R6", upPkg, "computeParts"); cs != nil {
 		// ceil: total/size, +1 exactly when total%size != 0; 0 for total <= 0
+		// decided by evaluating the function on its three classes of input, so
+		// that the way it is written does not matter: total ≤ 0 → 0;
+		// total > 0, remainder 0 → total/size; remainder ≠ 0 → total/size + 1
 		n6++
-		ok := false
-		for _, r := range engine.Returns(cs) {
-			cv, isCv := r.Results[0].(*ssa.Convert)
-			if !isCv {
-				continue
-			}
-			phi, isPhi := cv.X.(*ssa.Phi)
-			if !isPhi || len(phi.Edges) != 2 {
-				continue
-			}
-			var q, q1 ssa.Value
-			for _, e := range phi.Edges {
-				if b, isB := e.(*ssa.BinOp); isB && b.Op == token.QUO {
-					q = e
-				}
-				if b, isB := e.(*ssa.BinOp); isB && b.Op == token.ADD {
-					if k, isK := engine.ConstInt(b.Y); isK && k == 1 {
-						q1 = b.X
+		ok := true
+		isTotal := func(v ssa.Value) bool { return engine.Unwrap(v) == ssa.Value(cs.Params[1]) }
+		isSize := func(v ssa.Value) bool { return engine.Unwrap(v) == ssa.Value(cs.Params[0]) }
+		isRem := func(v ssa.Value) bool {
+			b, isB := engine.Unwrap(v).(*ssa.BinOp)
+			return isB && b.Op == token.REM && isTotal(b.X) && isSize(b.Y)
+		}
+		isQuo := func(v ssa.Value) bool {
+			b, isB := engine.Unwrap(v).(*ssa.BinOp)
+			return isB && b.Op == token.QUO && isTotal(b.X) && isSize(b.Y)
+		}
+		for _, cl := range []struct {
+			name       string
+			total, rem int
+			want       string
+		}{{"total<=0", -1, 0, "0"}, {"total=0", 0, 0, "0"}, {"exact-multiple", 1, 0, "q"}, {"with-remainder", 1, 1, "q+1"}} {
+			cl := cl
+			res, err := engine.AbstractRun(cs, func(x, y ssa.Value) (int, bool) {
+				val := func(v ssa.Value) (int64, bool) {
+					if k, isK := engine.ConstInt(v); isK {
+						return k, true
 					}
+					switch {
+					case isTotal(v):
+						return int64(cl.total), true
+					case isRem(v):
+						return int64(cl.rem), true
+					}
+					return 0, false
+				}
+				a, ok1 := val(x)
+				b, ok2 := val(y)
+				if !ok1 || !ok2 {
+					return 0, false
+				}
+				return cmp64(a, b), true
+			})
+			if err != nil {
+				ok = false
+				continue
+			}
+			got := "?"
+			v := engine.RetValOnPath(res, 0)
+			for i := 0; i < 6; i++ {
+				if cv, isCv := v.(*ssa.Convert); isCv {
+					v = cv.X
+				}
+				v = res.Resolve(v)
+			}
+			if k, isK := engine.ConstInt(v); isK && k == 0 {
+				got = "0"
+			} else if isQuo(res.Resolve(v)) {
+				got = "q"
+			} else if b, isB := v.(*ssa.BinOp); isB && b.Op == token.ADD {
+				if k, isK := engine.ConstInt(b.Y); isK && k == 1 && isQuo(res.Resolve(b.X)) {
+					got = "q+1"
 				}
 			}
-			if q != nil && q1 == q {
-				qb := q.(*ssa.BinOp)
-				remOK := len(engine.EdgesWhere(cs, func(k engine.Cmp) bool {
-					rb, isR := engine.Unwrap(k.X).(*ssa.BinOp)
-					z, isK := engine.ConstInt(k.Y)
-					return isR && rb.Op == token.REM && rb.X == qb.X && rb.Y == qb.Y && isK && z == 0 && k.Op == token.NEQ
-				})) == 1
-				ok = remOK && engine.Describe(qb.X) == "p:total" && engine.Describe(qb.Y) == "p:partSize"
+			if got != cl.want {
+				ok = false
 			}
 		}
 		c.Check(ok, "C32.R6", "computeParts/ceiling-division", cs.Pos(), "computeParts must be ⌈total / partSize⌉")
